@@ -22,6 +22,13 @@ EXTENDS Naturals, Sequences, FiniteSets, TLC
 
 Null == [t |-> "n"]
 
+\* Named deviation (known finding "scalar-list-null-element-error-at-list-path"): the list
+\* marshaller gives the elements of SCALAR / ENUM lists no field context of their own, so a
+\* nil element in a non-null position is reported once, at the LIST's path, instead of once
+\* per nil element at the element's path.  FALSE = the property (the path of the position
+\* that failed); TRUE admits what the tree does, so that the rest of such a trace is checked.
+CONSTANT LeafElemErrAtList
+
 Join(p, seg) == IF p = "" THEN seg ELSE p \o "." \o seg
 
 DfltOut == [k |-> "dflt", n |-> 2, ty |-> "", v |-> ""]
@@ -149,8 +156,12 @@ Complete(C, w0, tname, o, sels, rp, vp) ==
                ew  == Tail(w)
                es  == ElemAll(C, ew, tname, sels, rp, vp, 1, n)
                bad == IsNN(ew) /\ \E i \in 1..n : es[i].isnull
+               leaf == LeafElemErrAtList /\ C.S.types[tname].kind \in {"SCALAR", "ENUM"}
+                       /\ (ew = <<>> \/ ew = <<"N">>)
            IN  [d |-> IF bad THEN Null ELSE [t |-> "l", e |-> ListElems(es, 1)],
-                isnull |-> bad, errs |-> FlatErrs(es, 1), pos |-> UnionPos(es, 1), dinfo |-> UnionDinfo(es, 1)]
+                isnull |-> bad,
+                errs |-> IF leaf THEN (IF bad THEN <<[p |-> rp, c |-> "nonnull"]>> ELSE <<>>) ELSE FlatErrs(es, 1),
+                pos |-> UnionPos(es, 1), dinfo |-> UnionDinfo(es, 1)]
       ELSE LET kind == C.S.types[tname].kind
            IN  IF kind \in {"SCALAR", "ENUM"}
                THEN [d |-> [t |-> ScalarTag(tname),
